@@ -267,6 +267,12 @@ fn enumerate(w: &mut World, prop: &str, seed: u64, extra: &mut BTreeMap<&'static
         }
         points = set.into_iter().collect();
     }
+    // the image budget may run out: don't let that always hit the end of the
+    // history (visit the points in a seeded random order)
+    for i in (1..points.len()).rev() {
+        let j = rng.below(i as u64 + 1) as usize;
+        points.swap(i, j);
+    }
     let cs = w.cfg.cs();
     let vsize = w.cfg.vsize();
     let vend = w.cfg.vend();
@@ -466,12 +472,14 @@ pub fn crash_gen(p: &mut Profile) {
     o.ownership = false;
     match p.id {
         "C04" => {
+            g.template_pct = 50;
             g.par_pct = 35;
             g.max_clients = 4;
             g.racy_discard_pct = 30;
             g.op_weights = [45, 4, 16, 16, 5, 3, 1, 0, 0];
         }
         "C05" => {
+            g.template_pct = 40;
             g.par_pct = 25;
             g.max_clients = 3;
             g.racy_discard_pct = 30;
